@@ -952,18 +952,20 @@ Proof. destruct ps; cbn [m_params m_ptail]; destruct (m_ident p ts); reflexivity
 Lemma params_loop_inv : forall ps n acc x c' l t rest r,
   m_ptail ps l = Some (t :: rest) -> t_type t = T_RPAREN ->
   params_loop n acc (St x c' l) = Some r ->
-  exists c'', r = (acc ++ ps, St x c'' (t :: rest)).
+  r = (acc ++ ps, St x t rest).
 Proof.
   induction ps as [|p ps IH]; intros n acc x c' l t rest r Hm Ht HL.
   - cbn [m_ptail] in Hm. injection Hm as Hm. subst l.
     destruct n; [discriminate|]. cbn [params_loop] in HL.
-    rewrite peek_is_St, Ht in HL. ev_in HL. injection HL as HL. subst r. rewrite app_nil_r. eauto.
+    rewrite peek_is_St, Ht in HL. ev_in HL. rewrite expect_St in HL by assumption.
+    injection HL as HL. subst r. rewrite app_nil_r. reflexivity.
   - unfold m_ptail in Hm. minv Hm. tinv. rewrite m_params_cons in Hm. minv Hm. tinv.
     destruct n; [discriminate|]. cbn [params_loop] in HL.
-    rewrite peek_is_St in HL. rwt_in HL. ev_in HL. cbv zeta in HL. rewrite !next_St, cur_St in HL.
+    rewrite peek_is_St in HL. rwt_in HL. ev_in HL. rewrite next_St in HL.
+    rewrite expect_St in HL by assumption. cbn [negb] in HL. rewrite cur_St in HL.
     match goal with H : mk_ident _ = _ |- _ => rewrite H in HL end.
     eapply IH in HL; [|eassumption|assumption].
-    destruct HL as (c3 & HL). rewrite <- app_assoc in HL. eauto.
+    rewrite <- app_assoc in HL. exact HL.
 Qed.
 
 Lemma params_inv f ps x c0 l t rest r :
@@ -974,11 +976,10 @@ Proof.
   - cbn [m_params] in Hm. injection Hm as Hm. subst l.
     rewrite peek_is_St, Ht, Z.eqb_refl, next_St in HL. congruence.
   - rewrite m_params_cons in Hm. minv Hm. tinv.
-    rewrite peek_is_St in HL. rwt_in HL. ev_in HL. cbv zeta in HL. rewrite next_St, cur_St in HL.
+    rewrite peek_is_St in HL. rwt_in HL. ev_in HL.
+    rewrite expect_St in HL by assumption. cbn [negb] in HL. rewrite cur_St in HL.
     match goal with H : mk_ident _ = _ |- _ => rewrite H in HL end.
-    dparse HL. eapply params_loop_inv in Ea; [|eassumption|assumption].
-    destruct Ea as (c3 & Ea). inversion Ea; subst.
-    rewrite expect_St in HL by assumption. cbn [app] in HL. congruence.
+    eapply params_loop_inv in HL; [|eassumption|assumption]. exact HL.
 Qed.
 
 (* ---------- blocks ---------- *)
